@@ -385,6 +385,8 @@ func generate(prop, tier string, r *rand.Rand, idx int) any {
 		return genC03(prop, tier, r)
 	case "C04":
 		return genC04(prop, tier, r)
+	case "C05":
+		return genC05(prop, tier, r)
 	case "C06":
 		return genC06(prop, tier, r)
 	case "C07":
@@ -699,4 +701,64 @@ func genC09(prop, tier string, r *rand.Rand) *Scn {
 		g.timing(n)
 	}
 	return g.sc
+}
+
+// ---- cancellation profiles -----------------------------------------------------------
+
+func startEvents(mr *MRun) []MEv {
+	var out []MEv
+	for _, e := range mr.Main {
+		switch e.Kind {
+		case "prep_start", "exec_start", "fb_start", "post_start":
+			out = append(out, e)
+		}
+	}
+	return out
+}
+
+func genC05(prop, tier string, r *rand.Rand) *Scn {
+	sc := bounded(func() *Scn {
+		g := newGen(prop, tier, r)
+		g.failP = 0.2
+		g.sleepP = 0.3
+		g.sc.Faulty = true
+		g.waits = []int{0, 10, 20, 50, 50}
+		if r.IntN(3) == 0 {
+			n := g.leaf(1)
+			g.sc.Root = n.ID
+		} else {
+			g.sc.Root = g.tree(1+r.IntN(5), 1+r.IntN(3), 0)
+		}
+		if r.IntN(4) == 0 && g.sc.Nodes[g.sc.Root].Kind == "flow" {
+			g.sc.Via = "flowrun"
+		}
+		return g.sc
+	})
+	sc.Runs = 1
+	mod := runModel(sc)
+	mr := mod.Runs[0]
+	switch mode := r.IntN(8); {
+	case mode == 0:
+		sc.Ctx.Kind = "precancel"
+	case mode == 1:
+		sc.Ctx = CtxSpec{Kind: "predeadline", DeadlineUs: int64(1000 * (1 + r.IntN(50)))}
+	case mode <= 3 && mr.EndT > 0:
+		// a deadline strictly inside a callback's sleep or a retry wait (off the 10ms grid)
+		us := mr.EndT / 1000
+		d := r.Int64N(us)
+		if d%10000 == 0 {
+			d += 1 + r.Int64N(9999)
+		}
+		sc.Ctx = CtxSpec{Kind: "deadline", DeadlineUs: d}
+	default:
+		starts := startEvents(mr)
+		sc.Ctx.Kind = "cancel"
+		for try := 0; try < 8 && len(starts) > 0; try++ {
+			if o := sc.outcomeAt(pick(r, starts)); o != nil {
+				o.Cancel = true
+				break
+			}
+		}
+	}
+	return sc
 }
